@@ -55,6 +55,7 @@ type segVariant struct {
 	flush    bool
 	empty    bool
 	oneWrite bool
+	zeroRead bool // the handler issues a Read with an empty buffer before every real one
 }
 
 var c08Points *[]string
@@ -85,6 +86,7 @@ func c08Run(s *Scenario, raw []byte, v segVariant, r *rand.Rand) (*c08Result, *E
 	script.FlushEach = v.flush
 	script.EmptyWrites = v.empty
 	script.OneWrite = v.oneWrite
+	script.ZeroReads = v.zeroRead
 	eo := &execOpts{Chunks: v.chunks}
 	eo.PreRun = func(e *Exec) { e.Built.Body.EOFWith = v.eofWith }
 	var pts []string
@@ -186,6 +188,10 @@ func c08Variants(r *rand.Rand, reqLen int) []segVariant {
 		{name: "write-4-1", writeSeg: []int{4, 1, 2, 3, 1 << 20}},
 		{name: "write-all-in-one", oneWrite: true},
 		{name: "write-empty+flush", empty: true, flush: true, writeSeg: []int{3, 7, 1, 1 << 20}},
+		// Read results of (0, nil) - "nothing happened" - from the client's body, and reads into an empty buffer by the handler
+		{name: "chunks-with-zero-count-reads", chunks: []int{-1, 3, -1, -1, 2, -1, 7, -1, 1 << 20, -1, 1 << 20, -1}},
+		{name: "handler-empty-buffer-reads", zeroRead: true},
+		{name: "handler-empty-buffer-reads-small", zeroRead: true, readBuf: 3},
 	}
 	for _, n := range []int{1, 2, 3, 4, 5, 6, 7, 8, 64, 4096} {
 		vs = append(vs, segVariant{name: fmt.Sprintf("readbuf-%d", n), readBuf: n})
